@@ -249,9 +249,7 @@ func (u *Unit) builtin(st *State, fr *Frame, in *ssa.Call, bi *ssa.Builtin, args
 			return one(IntV{n, true})
 		}
 		if !u.writable(d.R) && u.specMode == 0 {
-			if !u.require(st, fr, Eq(n, IntK(0)), "frame", in) {
-				return nil, true
-			}
+			u.oblige(st, fmt.Sprintf("%s#frame:%s", fnKey(u.fn), u.where(fr, in)), "frame", []string{"C18"}, Eq(n, IntK(0)), "")
 		}
 		es := scalarSort(d.R.Elem)
 		if es == nil || d.R.concrete {
@@ -370,7 +368,7 @@ func (u *Unit) doAppend(st *State, fr *Frame, in *ssa.Call, et types.Type, s Sli
 		if fits.IsTrue() || u.feasible(s1) {
 			ok := true
 			if !u.writable(s.R) && u.specMode == 0 {
-				ok = u.require(s1, fr, False, "frame", in)
+				u.frameViolation(s1, fr, in)
 			}
 			if ok {
 				s1.alloc = IntAdd(s1.alloc, IntMul(aLen, IntK(esz)))
@@ -624,9 +622,7 @@ func (u *Unit) callByContract(st *State, fr *Frame, in *ssa.Call, fn *ssa.Functi
 			}
 			t := fn.Params[mi].Type().Underlying().(*types.Pointer).Elem()
 			if !p.Obj.fresh && !u.modRecv[p.Obj] {
-				if !u.require(st, fr, False, "frame", in) {
-					return nil, true
-				}
+				u.frameViolation(st, fr, in)
 			}
 			nv := u.havoc(st, t, fn.Name()+".mod")
 			markFresh(u, st, nv) // what the callee stores into *p it allocated itself or got from its arguments
@@ -636,9 +632,7 @@ func (u *Unit) callByContract(st *State, fr *Frame, in *ssa.Call, fn *ssa.Functi
 				return nil, true
 			}
 			if !u.writable(p.R) && u.specMode == 0 {
-				if !u.require(st, fr, False, "frame", in) {
-					return nil, true
-				}
+				u.frameViolation(st, fr, in)
 			}
 			if p.R.concrete || p.R.parent != nil {
 				u.unsupported("contract call modifying an element of a concrete or nested region")
@@ -652,9 +646,7 @@ func (u *Unit) callByContract(st *State, fr *Frame, in *ssa.Call, fn *ssa.Functi
 		case SliceV:
 			if p.R != nil {
 				if !u.writable(p.R) && u.specMode == 0 {
-					if !u.require(st, fr, Eq(p.Len, IntK(0)), "frame", in) {
-						return nil, true
-					}
+					u.oblige(st, fmt.Sprintf("%s#frame:%s", fnKey(u.fn), u.where(fr, in)), "frame", []string{"C18"}, Eq(p.Len, IntK(0)), "")
 				}
 				u.havocRegion(st, p.R)
 			}
